@@ -63,6 +63,10 @@ func genProg() *rapid.Generator[*Prog] {
 					name = rapid.SampledFrom(ctrlOps).Draw(t, "ctrlop")
 				} else {
 					name = rapid.SampledFrom(clientOps).Draw(t, "op")
+					// accessors of state that lifecycle calls replace: make them frequent enough to overlap
+					if rapid.IntRange(0, 5).Draw(t, "accessor") == 0 {
+						name = rapid.SampledFrom([]string{"ctx", "errs", "wstatus", "metrics", "nidle"}).Draw(t, "accessorop")
+					}
 				}
 				ops = append(ops, Op{Op: name, Q: rapid.IntRange(0, nq-1).Draw(t, "q"), H: rapid.IntRange(0, 7).Draw(t, "h"), V: rapid.SampledFrom([]int{1, 2, 3, 4, 0}).Draw(t, "v"), N: rapid.IntRange(0, 5).Draw(t, "n")})
 			}
